@@ -92,7 +92,11 @@ var reg = vk.Registry{
 		}
 		return parseParts(c, r)
 	},
-	"parse": func(raw json.RawMessage) *vk.Violation { var c ParseCase; _ = json.Unmarshal(raw, &c); return checkParse(c) },
+	"parse": func(raw json.RawMessage) *vk.Violation {
+		var c ParseCase
+		_ = json.Unmarshal(raw, &c)
+		return checkParse(c)
+	},
 }
 
 func TestReplay(t *testing.T) { vk.RunReplay(t, reg) }
